@@ -181,6 +181,10 @@ def oracle_c17(line, go):
         return "the server logged a recovered panic"
     if "HANG" in go:
         return "ServeConn did not return after the peer had gone"
+    if "pool" in fl and "recycled-under-its-handler" in str(fl["pool"]):
+        return "pool tracker: " + str(fl["pool"])
+    if "leak" in fl:
+        return "%s handler goroutines never came back after their handlers had returned and the connection was closed" % fl["leak"]
     return None
 
 
